@@ -19,6 +19,7 @@ import (
 	"fmt"
 	"os"
 	"path/filepath"
+	"runtime"
 	"sort"
 	"strings"
 	"sync"
@@ -946,6 +947,10 @@ func c17Datasets(thorough bool) []*c17Data {
 }
 
 func TestVerif_C17(t *testing.T) {
+	if vx.IsChild() {
+		// a worker process runs its share sequentially; 16 workers x 16 Ps only thrash the scheduler
+		runtime.GOMAXPROCS(2)
+	}
 	c := vx.NewCheck("C17", "model_checking",
 		"one evaluation = one query executed on one in-process cluster under one fully controlled arrival order (or one reduce-function application of the algebra part); states = quiescent points at which the harness chose the next result to release, transitions = results released; distinct = distinct (dataset, shard grouping, coordinator, arrival plan)")
 	c.ProcFor(c.NextRunLabel(), len(c17AlgebraParts), nil, func(_ []byte, i int, _ func([]byte)) { c17AlgebraParts[i](c) }, nil)
